@@ -205,6 +205,10 @@ class C17(Prop):
         r = shard_rng(seed, self.id, shard)
         for _ in range(30 if tier == "quick" else 300):
             yield {"kind": "tree", "seed": r.getrandbits(40), "hostile_ignore": r.random() < 0.3}
+        for _ in range(4 if tier == "quick" else 40):
+            yield {"kind": "twin", "seed": r.getrandbits(40)}
+        if shard < 4:
+            yield {"kind": "locale", "variant": shard}
 
     def setup_worker(self, col, tier):
         from flowmark.file_resolver import FileResolver, FileResolverConfig
@@ -216,65 +220,136 @@ class C17(Prop):
     def teardown_worker(self, col):
         shutil.rmtree(self.tmp, ignore_errors=True)
 
+    def _check_locale(self, case, col):
+        """The real command line in a process whose locale is not UTF-8 (cron, `env -i`, minimal containers): an ignore file
+        is UTF-8 whatever the locale says."""
+        import sys
+        base = tempfile.mkdtemp(prefix="t-", dir=self.tmp)
+        root = os.path.join(base, "tree")
+        try:
+            files = ["a.md", "b.md", "docs/a.md", "docs/b.md", "drafts/d.md", "keep/b.md"]
+            for f in files:
+                os.makedirs(os.path.dirname(os.path.join(root, f)) or root, exist_ok=True)
+                with open(os.path.join(root, f), "w") as fh:
+                    fh.write("x\n")
+            v = case["variant"]
+            lines = [["# caf\u00e9 \u2014 brouillons", "drafts/", "b.md"], ["drafts/", "# \u4e2d\u6587", "/b.md"], ["\ufeffdrafts/", "b.md", "# \u00fc"], ["b.md", "docs/", "# ascii only"]][v]
+            with open(os.path.join(root, ".flowmarkignore"), "w", encoding="utf-8") as fh:
+                fh.write("\n".join(lines) + "\n")
+            settings = {"respect_gitignore": False}
+            ref = Ref(root, settings, {root: [ln.lstrip("\ufeff") for ln in lines]})
+            cwd = os.getcwd()
+            os.chdir(root)
+            try:
+                want = ref.resolve(["."], root)
+            finally:
+                os.chdir(cwd)
+            for name, extra in (("utf8", {"LC_ALL": "C.UTF-8"}), ("C", {"LC_ALL": "C", "LANG": "C", "PYTHONUTF8": "0", "PYTHONCOERCECLOCALE": "0"})):
+                env = dict(os.environ, **extra)
+                env.pop("PYTHONIOENCODING", None)
+                p = subprocess.run([sys.executable, "-m", "flowmark.cli", "--list-files", "--no-respect-gitignore", "."], cwd=root, env=env, capture_output=True, timeout=120)
+                col.case()
+                col.mon("cli")
+                col.distinct("locale", v, name)
+                got = sorted(os.path.realpath(os.path.join(root, x)) for x in p.stdout.decode("utf-8", "replace").split("\n") if x)
+                if p.returncode != 0 or got != want:
+                    col.violation("cli", f"C17/cli-under-locale-{name}-differs-from-reference", case,
+                                  {"rc": p.returncode, "flowmarkignore": lines, "extra": [os.path.relpath(x, root) for x in sorted(set(got) - set(want))[:4]],
+                                   "missing": [os.path.relpath(x, root) for x in sorted(set(want) - set(got))[:4]], "stderr": p.stderr.decode("utf-8", "replace")[-200:]})
+        finally:
+            shutil.rmtree(base, ignore_errors=True)
+
     def check(self, case, col: Collector):
+        if case["kind"] == "locale":
+            return self._check_locale(case, col)
         r = random.Random(case["seed"])
         base = tempfile.mkdtemp(prefix="t-", dir=self.tmp)
         root = os.path.join(base, "tree")
         try:
-            use_glob = r.random() < 0.5
-            # what a glob does with symbolic links is not specified: trees with links get no glob arguments
-            t = build_tree(r, root, excluded_names=True, symlinks=not use_glob, sizes=True)
-            settings = {"respect_gitignore": False}
-            if r.random() < 0.4:
-                settings["extend_include"] = r.choice([["*.mdx"], ["*.txt"], ["*.MD"]])
-            if r.random() < 0.25:
-                settings["exclude"] = r.choice([[], ["drafts/"], ["docs/", "build/"]])
-            if r.random() < 0.35:
-                settings["extend_exclude"] = r.choice([["drafts/"], ["d1/", "guide/"], ["sub dir/"]])
-            settings["files_max_size"] = r.choice([100, 100, 0, 1048576, 3])
-            settings["force_exclude"] = r.random() < 0.3
-            ign = []
-            ignore_files = {}
-            pats = IGNORE_SIMPLE + (IGNORE_PATHS if case.get("hostile_ignore") else [])
-            if r.random() < 0.5:
-                ign = r.sample(pats, r.randint(1, 3))
-                ignore_files[root] = ign
-            # further ignore files below the root: each governs the walks / globs that start at or below its directory
-            # and above any deeper one (searched upward from the start directory, first one found)
-            nested_dirs = []
-            for d in [d for d in t["dirs"] if d and not any(c in EXCLUDED_DIRNAMES for c in d.split("/"))]:
-                if r.random() < 0.3 and len(nested_dirs) < 2:
-                    nested_dirs.append(d)
-                    ignore_files[os.path.join(root, d)] = r.sample(pats, r.randint(1, 2))
-            for d, lines in ignore_files.items():
-                with open(os.path.join(d, ".flowmarkignore"), "w") as f:
-                    f.write("\n".join(lines) + "\n")
-            ref = Ref(root, settings, ignore_files)
-            files = sorted(t["files"])
-            subdirs = [d for d in t["dirs"] if d]
-            pool = ["."]
-            if subdirs:
-                pool += r.sample(subdirs, min(2, len(subdirs)))
-            if files:
-                pool += r.sample(files, min(3, len(files)))
-            pool += [k for k in t["links"] if t["links"][k][0] in ("file-in", "file-out")][:1]
-            if use_glob:
-                pool += r.sample(["*.md", "*/*.md", "**/*.md", "docs/*.md", "d?/*.md", "**/*.mdx"], 2)
-            for d in nested_dirs:
-                pool.append(d)
+            if case["kind"] == "twin":
+                # two traversal / glob roots that hold the SAME relative sub-directory, and an ignore rule that decides
+                # differently for the two (state keyed by a path relative to "the" root must not leak from one root to the other)
+                t = {"dirs": ["", "guide", "guide/drafts", "api", "api/drafts", "api/v2", "guide/v2"], "links": {},
+                     "files": {f: 3 for f in ["top.md", "guide/a.md", "guide/drafts/next.md", "guide/drafts/old.md", "api/b.md", "api/drafts/next.md",
+                                              "api/v2/c.md", "guide/v2/c.md", "api/drafts/x.mdx"]}}
+                for f in t["files"]:
+                    os.makedirs(os.path.dirname(os.path.join(root, f)), exist_ok=True)
+                    with open(os.path.join(root, f), "w") as fh:
+                        fh.write("xxx")
+                settings = {"respect_gitignore": False, "files_max_size": 100, "force_exclude": False}
+                if r.random() < 0.3:
+                    settings["extend_exclude"] = ["v2/"]
+                ign = r.choice([["/guide/drafts/"], ["guide/drafts/"], ["/api/drafts/next.md"], ["api/drafts/*.md"], ["/api/v2/", "/guide/drafts/old.md"], ["drafts/", "!/api/drafts/"]])
+                ignore_files = {root: ign}
+                with open(os.path.join(root, ".flowmarkignore"), "w") as f:
+                    f.write("\n".join(ign) + "\n")
+                ref = Ref(root, settings, ignore_files)
+                shapes = r.choice([["guide/**/*.md", "api/**/*.md"], ["guide", "api"], ["guide/**/*.md", "api"], ["guide/*/*.md", "api/*/*.md", "*.md"],
+                                   ["api/**/*.md", "guide/**/*.md", "api/drafts/next.md"], ["guide/drafts", "api/drafts", "api"]])
+                args = list(shapes)
+                r.shuffle(args)
+            else:
+                use_glob = r.random() < 0.5
+                # what a glob does with symbolic links is not specified: trees with links get no glob arguments
+                t = build_tree(r, root, excluded_names=True, symlinks=not use_glob, sizes=True)
+                if t["files"] and r.random() < 0.15:
+                    # one file just over the DEFAULT size limit (1 MiB): "0 = no limit" and explicit limits must not fall back to it
+                    bigf = r.choice(sorted(t["files"]))
+                    with open(os.path.join(root, bigf), "w") as fh:
+                        fh.write("x" * 1048577)
+                    t["files"][bigf] = 1048577
+                    col.count("trees_with_a_file_over_the_default_limit")
+                settings = {"respect_gitignore": False}
+                if r.random() < 0.4:
+                    settings["extend_include"] = r.choice([["*.mdx"], ["*.txt"], ["*.MD"]])
+                if r.random() < 0.25:
+                    settings["exclude"] = r.choice([[], ["drafts/"], ["docs/", "build/"]])
+                if r.random() < 0.35:
+                    settings["extend_exclude"] = r.choice([["drafts/"], ["d1/", "guide/"], ["sub dir/"]])
+                settings["files_max_size"] = r.choice([100, 100, 0, 1048576, 3])
+                settings["force_exclude"] = r.random() < 0.3
+                ign = []
+                ignore_files = {}
+                pats = IGNORE_SIMPLE + (IGNORE_PATHS if case.get("hostile_ignore") else [])
+                if r.random() < 0.5:
+                    ign = r.sample(pats, r.randint(1, 3))
+                    ignore_files[root] = ign
+                # further ignore files below the root: each governs the walks / globs that start at or below its directory
+                # and above any deeper one (searched upward from the start directory, first one found)
+                nested_dirs = []
+                for d in [d for d in t["dirs"] if d and not any(c in EXCLUDED_DIRNAMES for c in d.split("/"))]:
+                    if r.random() < 0.3 and len(nested_dirs) < 2:
+                        nested_dirs.append(d)
+                        ignore_files[os.path.join(root, d)] = r.sample(pats, r.randint(1, 2))
+                for d, lines in ignore_files.items():
+                    with open(os.path.join(d, ".flowmarkignore"), "w") as f:
+                        f.write("\n".join(lines) + "\n")
+                ref = Ref(root, settings, ignore_files)
+                files = sorted(t["files"])
+                subdirs = [d for d in t["dirs"] if d]
+                pool = ["."]
+                if subdirs:
+                    pool += r.sample(subdirs, min(2, len(subdirs)))
+                if files:
+                    pool += r.sample(files, min(3, len(files)))
+                pool += [k for k in t["links"] if t["links"][k][0] in ("file-in", "file-out")][:1]
                 if use_glob:
-                    pool.append(d + "/*.md")
-            if subdirs and r.random() < 0.35:
-                # the same directories spelled non-canonically ('a/../b'): the governing ignore file and its rules are the same
-                d1 = r.choice(subdirs)
-                pool.append(os.path.join(d1, "..", os.path.basename(d1)) if "/" not in d1 else os.path.join(d1, "..", os.path.basename(d1)))
-                pool.append(os.path.join(d1, ".."))
-                if use_glob:
-                    pool.append(os.path.join(d1, "..", "*.md"))
-            args = r.sample(pool, r.randint(1, min(4, len(pool))))
-            if len(args) >= 2 and r.random() < 0.3:
-                # the same root again later in the list (A B A): a resolver must not carry state from B into A's second visit
-                args.append(args[0])
+                    pool += r.sample(["*.md", "*/*.md", "**/*.md", "docs/*.md", "d?/*.md", "**/*.mdx"], 2)
+                for d in nested_dirs:
+                    pool.append(d)
+                    if use_glob:
+                        pool.append(d + "/*.md")
+                if subdirs and r.random() < 0.35:
+                    # the same directories spelled non-canonically ('a/../b'): the governing ignore file and its rules are the same
+                    d1 = r.choice(subdirs)
+                    pool.append(os.path.join(d1, "..", os.path.basename(d1)) if "/" not in d1 else os.path.join(d1, "..", os.path.basename(d1)))
+                    pool.append(os.path.join(d1, ".."))
+                    if use_glob:
+                        pool.append(os.path.join(d1, "..", "*.md"))
+                args = r.sample(pool, r.randint(1, min(4, len(pool))))
+                if len(args) >= 2 and r.random() < 0.3:
+                    # the same root again later in the list (A B A): a resolver must not carry state from B into A's second visit
+                    args.append(args[0])
             nontrivial = bool(t["links"] or ignore_files or any(d.split("/")[-1] in EXCLUDED_DIRNAMES for d in t["dirs"]) or
                               any(s > 100 for s in t["files"].values()))
             cfg = self.FRC(**settings)
